@@ -364,7 +364,11 @@ def make_gitref(props=("C17",), known=()):
                 E.check("two-argument-routing", got == want, info="got %r want %r (is ref: %r)" % (got, want, isref))
             else:
                 if not isref[0]:
-                    want = (None, None, [cands[0], cands[1]] + extra)
+                    # only path filters: the revisions are the defaults, HEAD
+                    # against the working tree, exactly as for a single path
+                    # (this oracle used to expect base None -- the code's own
+                    # answer, which *is* the working-tree sentinel)
+                    want = ("HEAD", None, [cands[0], cands[1]] + extra)
                 elif not isref[1]:
                     want = (cands[0], None, [cands[1]] + extra)
                 else:
